@@ -86,8 +86,12 @@ func equalStrings(a, b []string) bool {
 
 func runC07(c *fw.Ctx) {
 	var sc *scen.Scenario
-	xorSweep := c.S.Draw(8, "xor3-sweep") == 7
-	if xorSweep {
+	mode := c.S.Draw(8, "xor3-sweep")
+	xorSweep := mode == 7
+	if mode == 6 || mode == 5 {
+		// the handler under round shapes no shipped protocol has (e.g. point-to-point-only rounds after round 2)
+		sc = scen.DrawToy(c)
+	} else if xorSweep {
 		// the deterministic 2-round protocol with 3 parties: 6 messages, 720 delivery orders, sampled uniformly
 		ids := scen.IDPool[:3]
 		sc = &scen.Scenario{Kind: scen.KXor, Proto: scen.FROST, N: 3, T: 2, IDs: ids, Parts: ids, SID: []byte(c.Label("sid", "main")), Name: "xor n=3"}
